@@ -313,6 +313,9 @@ def run(cx, rep):
             txt = "".join(mod.text(fn).split())
             ok2 = "activeRefs.has(" in txt and "activeRefs.add(" in txt and "activeRefs.delete(" in txt
             rep.ob("C15.4", "%s.describe/recursion-guard" % cn, ok2, "%s.describe must guard the recursive description with activeRefs" % cn, mod.loc(fn))
+    # ---------------------------------------------------------------- C15.8
+    rep.rule("C15.8", "describe methods read every constructor argument they read on the reviewed tree")
+    ts_common.field_matrix_rule(cx, rep, "C15.8", ['describeTypeExpr', 'describeChildren', 'describe'])
 
 
 def _runtype_fields(fam, cn):
